@@ -70,3 +70,23 @@ PROPS['C03'] = dict(
     level_text='every iterator protocol (function and macro forms) compared element by element with a reference traversal on generated and exhaustively enumerated small trees; tear-down checked with immediate free under ASan',
     level_note='trusts the recursive reference traversals; trees beyond 256 nodes are not generated; exhaustive only for <= 8 keys',
 )
+
+SEQ_SRC = ['a.c', 'vec.c', 'buf.c']
+PROPS['C04'] = dict(
+    level='exploration',
+    rule='choice tape -> container kind (vector via new/ctor, buffer via new/ctor-on-caller-storage with capacity 0..12), element size in {0->1,1,2,3,4,7,8,12,16,24}, '
+         'optional second container, then <= 300 ops (push/pull either end, insert/remove/store/erase at indices from {in range, 0, 1, n/2, n-1, n, n+1, 2n+1, 2^31, 2^32-1, 2^63, '
+         'SIZE_MAX-1, SIZE_MAX}, erase counts incl. SIZE_MAX and counts that wrap idx+num, setn/setm/setz, sort, push+sort_fore/sort_back, push_sort, search, swap, at/of/top/end, '
+         'fill-to-capacity); after every op count<=capacity, payload bytes and returned pointers are compared with a std::vector model, the claimed capacity is touched under ASan and the '
+         'allocator ledger is checked; non-trivial = a positional remove or sort_fore/sort_back ran in BOTH capacity states (spare slot / exactly full) or an index >= 2^32 was used; '
+         'distinct = hash of the decoded header and op bytes',
+    assumptions=COMMON_ASSUME + ['model: std::vector<std::vector<uint8_t>>; sorted variants judged by a validity predicate (sorted + multiset preserved), tie positions free',
+                                 'store counts are bounded by the source block the caller really passes (<= 6 elements); indices and erase counts are unbounded',
+                                 'a_buf_setm below the current count: the abstract sequence is truncated to the new capacity'],
+    units=lambda tier, seed: [Unit('vecbuf', 'exec/C04.cc', SEQ_SRC, tape_len=300)],
+    plan={'quick': dict(rc_procs=10, rc_cases=12000, fuzz_procs=6, fuzz_secs=30),
+          'thorough': dict(rc_procs=8, rc_cases=150000, fuzz_procs=8, fuzz_secs=300)},
+    technique='model-based stateful property-based testing (rapidcheck choice tapes, std::vector model, validity predicates for sorted variants) + coverage-guided libFuzzer on the same executor under ASan/UBSan with an allocator ledger',
+    level_text='generated operation histories on vector and buffer against an abstract sequence, with extreme indices/counts and both capacity states constructed on purpose; sampling, not proof',
+    level_note='trusts the std::vector model in exec/C04.cc and ASan for ownership of returned pointers; histories <= 300 ops',
+)
